@@ -49,6 +49,7 @@ const (
 	KNullToAny  = "C16-STORE-NULL-INTO-INTERFACE"
 	KShadow     = "C16-STRUCT-SHADOW-PROPERTY"
 	KFieldGrow  = "C16-FIELD-SLICE-GROW-LOST"
+	KInt64Str   = "C16-INT64-UNROUNDED-STRING"
 )
 
 func impossible(class string, known ...string) Den {
@@ -170,6 +171,13 @@ func denote0(v JV, t reflect.Type, path string) Den {
 		if named && path == "call" {
 			d.Known = append(d.Known, KNamedType)
 		}
+		if HasUnroundedGoInt(v) {
+			// a Go int/int64/uint/uint64 beyond 2^53 stays an un-rounded integer inside the Value and
+			// prints all its digits (same root cause as C15-INT64-UNROUNDED); ES5 9.8.1 prints the
+			// digits of the double
+			d.Known = append(d.Known, KInt64Str)
+			d.Class = "to-string:unrounded-go-integer"
+		}
 		if v.K == "sp" && v.S == "tostr" && len(v.E) == 1 && v.E[0].K == "num" {
 			// the Number a toString method returns is formatted by the same code
 			x := v.E[0].Float()
@@ -185,11 +193,7 @@ func denote0(v JV, t reflect.Type, path string) Den {
 			if isNearLayoutThreshold(x) {
 				return anyDen("to-string:num-layout-threshold")
 			}
-			if strings.HasPrefix(v.Form, "go:") && math.Abs(x) >= 9007199254740992 {
-				// a Go integer beyond 2^53 is kept as an integer inside the Value and prints all its
-				// digits (C06-INT64-VALUE): either text is a faithful rendering
-				return anyDen("to-string:go-integer-beyond-2^53")
-			}
+
 			if path == "call" && v.GoKind() == "float64" && goFormatV(x) != s {
 				d.Known = append(d.Known, KNumToStr)
 			}
@@ -660,4 +664,24 @@ func denoteGo(v JV, t reflect.Type) Den {
 		return d
 	}
 	return anyDen(class)
+}
+
+// HasUnroundedGoInt: somewhere in the value there is a number carried as a Go int/int64/uint/uint64
+// whose exact decimal text differs from ToString of the double it denotes (|v| > 2^53 and the
+// shortest round-trip digits are fewer than the integer's).
+func HasUnroundedGoInt(v JV) bool {
+	if v.K == "num" {
+		switch v.Form {
+		case "go:int64", "go:uint64", "go:int", "go:uint":
+			x := v.Float()
+			return math.Abs(x) > 9007199254740992 && CanonFloat(x) != es5.NumberToString(x)
+		}
+		return false
+	}
+	for _, e := range v.E {
+		if HasUnroundedGoInt(e) {
+			return true
+		}
+	}
+	return false
 }
